@@ -289,6 +289,15 @@ def _mesh_worker(spec, obs):
                 rec["sub_ghost"].append({"shape": [int(x) for x in s1._data_full.shape], "data": _ints(s1._data_full)})
                 if not np.array_equal(s1.data, s0.data):
                     fail(f"{name}: valid data of sub-field {i} differs between the two extraction modes")
+                if name == "collection":
+                    # model-free: splitting a collection is splitting its members - incl. the ghost cells (which hold the
+                    # data of the neighbouring sub-grids / the base ghost cells)
+                    for k_, member in enumerate(f):
+                        m1 = mesh.extract_subfield(member, i, with_ghost_cells=True)
+                        if not np.array_equal(np.asarray(s1[k_]._data_full), np.asarray(m1._data_full)):
+                            fail(f"collection: padded data of member {k_} of sub-collection {i} differs from the sub-field "
+                                 "of the member itself (ghost cells)")
+                            break
                 parts.append(s0.data)
             back = mesh.combine_field_data(parts)
             if back.shape != f.data.shape or not np.array_equal(back, f.data):
